@@ -21,16 +21,16 @@ func isPkgLevel(o types.Object) bool {
 func checkC26(p *Prog, r *Result, tier string) {
 	r.Technique = "identity-flow and guard rules over both StartEphemeral implementations (type-resolved AST + go/cfg): conditional create, per-call identity, identity carried by every refresh and delete, inspected refresh result, expiry channel closed on every exit; cancellation wiring of the two users (active watcher, service registration)"
 	r.Explanation = "E1 the key is created conditionally (etcd: transaction with Version(path) == 0 and a put bound to the lease; redis: SETNX with the TTL) and a lost race is reported as key-exists; E2 the identity written is fresh per call (etcd: the lease granted in this call; redis: a value made in this call, not a package-level value shared by every registrant); " +
-		"E3 every refresh and delete takes that identity (etcd: KeepAliveOnce / Revoke of the granted lease id; redis: the refresh and the delete must be conditional on the stored value being this call's — a plain EXPIRE path / DEL path acts on whoever holds the key now); E4 the refresh result that signals absence is inspected and ends the keeper (etcd: KeepAliveOnce's error; redis: EXPIRE's boolean); " +
-		"E5 the keeper goroutine closes the expiry channel by a first-statement defer (every exit notifies the registrant) and the returned deregistration cancels and waits for it; U1 the active watcher runs its work under a context that is cancelled when the expiry channel closes; U2 the service registration re-registers when the expiry channel closes and deregisters on exit."
+		"E3 every refresh and delete takes that identity (etcd: KeepAliveOnce / Revoke of the granted lease id; redis: the refresh and the delete must be conditional on the stored value being this call's — a plain EXPIRE path / DEL path acts on whoever holds the key now); (and nothing else in the etcd registrant writes or deletes the key by its path); E4 the refresh result that signals absence is inspected and ends the keeper (etcd: KeepAliveOnce's error; redis: EXPIRE's boolean); " +
+		"E5 the keeper goroutine closes the expiry channel by a first-statement defer (every exit notifies the registrant) and the returned deregistration cancels and waits for it; U1 the active watcher runs its work under a context that is cancelled when the expiry channel closes, and the work handed to it uses that context rather than a captured one; U2 the service registration re-registers when the expiry channel closes and deregisters on exit."
 	r.NotCovered = "at most one believer over all schedules (needs the stores' semantics); timing of the lapse notification"
 	r.Assumptions = []string{"A4 etcd leases: a key bound to a lease disappears with it, KeepAliveOnce fails for a lapsed lease"}
 	r.min("E1", 2)
 	r.min("E2", 2)
-	r.min("E3", 4)
+	r.min("E3", 5)
 	r.min("E4", 2)
 	r.min("E5", 4)
-	r.min("U1", 1)
+	r.min("U1", 2)
 	r.min("U2", 1)
 
 	// ---------------- etcd
@@ -110,6 +110,40 @@ func checkC26(p *Prog, r *Result, tier string) {
 				}
 			}
 			r.check(n > 0 && bad == "", "E3", "store/etcdv3/meta StartEphemeral / "+nm+" acts on the lease granted in this call", p.pos(E.Decl), nm+"(ctx, lease.ID)", fmt.Sprintf("%d call(s); foreign identity: %q — a registrant would refresh or revoke a registration that is not its own", n, bad))
+		}
+		// E3 (who-may-write): besides the conditional create, nothing in StartEphemeral addresses the key by its path —
+		// a Delete/Put of `path` acts on whoever holds the key now, not on this call's lease
+		{
+			pathObj := E.paramObj(1)
+			var offender *ast.CallExpr
+			var visit func(fn *FuncNode)
+			visit = func(fn *FuncNode) {
+				fn.inspectBody(func(n ast.Node) bool {
+					c, ok := n.(*ast.CallExpr)
+					if !ok || fn.Callee(c) == nil {
+						return true
+					}
+					switch fn.Callee(c).Name() {
+					case "Delete", "Put", "BatchDelete", "BatchPut", "Update", "BatchUpdate", "OpDelete":
+						for _, a := range c.Args {
+							if fn.usesObj(a, pathObj) {
+								offender = c
+							}
+						}
+					}
+					return true
+				})
+				for _, l := range fn.Lits {
+					visit(l)
+				}
+			}
+			visit(E)
+			key := "store/etcdv3/meta StartEphemeral / the key is never written or deleted by its path, only through this call's lease"
+			if offender != nil {
+				r.bad("E3", key, p.pos(offender), "`"+exprStr(offender.Fun)+"` addresses the key by its path: when this registrant's lease has lapsed and another registrant holds the key, this call removes or overwrites the other's registration (whose lease is alive, so it is never notified)")
+			} else {
+				r.ok("E3", key, p.pos(E.Decl), "only the conditional create names the path")
+			}
 		}
 		keeper := goLiteral(p, E)
 		why := "keeper goroutine not found"
@@ -312,6 +346,61 @@ func checkC26(p *Prog, r *Result, tier string) {
 			}
 		}
 		r.check2(why, "U1", "selfmon.(*NodeStatusWatcher).withActiveLock / a lapsed active key stops the watcher's work", p.pos(W.Decl), "go { defer cancel(); select { case <-ctx.Done(): case <-expiry: } }; f(ctx)")
+	}
+	// U1 (callers): the work handed to withActiveLock runs under the context it is GIVEN (the one that is cancelled when
+	// the active key lapses), not under a context captured from outside
+	for _, fn := range p.sortedFuncs("selfmon") {
+		if fn.Body == nil {
+			continue
+		}
+		fn.inspectBody(func(n ast.Node) bool {
+			c, ok := n.(*ast.CallExpr)
+			if !ok || fn.Callee(c) == nil || objName(fn.Callee(c)) != "selfmon.(*NodeStatusWatcher).withActiveLock" || len(c.Args) != 2 {
+				return true
+			}
+			key := fn.Name + " / the work handed to withActiveLock runs under the context it is given"
+			cb, ok := p.resolveFuncArg(fn, c.Args[1])
+			if !ok || cb == nil {
+				r.undecided("U1", key, p.pos(c), "callback not resolved")
+				return true
+			}
+			given := cb.paramObj(0)
+			why := ""
+			if given == nil || given.Name() == "_" || given.Name() == "" {
+				why = "the callback ignores the context it is given"
+			}
+			isCtx := func(t types.Type) bool { return t != nil && t.String() == "context.Context" }
+			cb.inspectBody(func(x ast.Node) bool {
+				cc, ok := x.(*ast.CallExpr)
+				if !ok || cb.Callee(cc) == nil {
+					return true
+				}
+				if pk := cb.Callee(cc).Pkg(); pk != nil && strings.HasSuffix(pk.Path(), "/log") {
+					return true // logging may use any context
+				}
+				for _, a := range cc.Args {
+					if !isCtx(cb.typeOf(a)) {
+						continue
+					}
+					id, ok := unparen(a).(*ast.Ident)
+					if !ok {
+						continue
+					}
+					o := cb.objOf(id)
+					if o == given {
+						continue
+					}
+					// a local of the callback derived from the given context is fine; anything declared outside is captured
+					if o != nil && cb.Body.Pos() <= o.Pos() && o.Pos() <= cb.Body.End() {
+						continue
+					}
+					why = "`" + exprStr(cc.Fun) + "` runs under `" + id.Name + "`, a context captured from outside the callback: it is not cancelled when the active key lapses, so a lapsed watcher keeps working while another one holds the key"
+				}
+				return true
+			})
+			r.check2(why, "U1", key, p.pos(c), "every context argument inside the callback is the callback's own parameter")
+			return true
+		})
 	}
 	if S := p.Fn("cluster/calcium.(*Calcium).RegisterService"); S == nil {
 		r.undecided("U2", "cluster/calcium.(*Calcium).RegisterService", "", "not found")
